@@ -96,6 +96,9 @@ def run(prop, tier, seed, rep):
             summary.setdefault(k, [0, bytes(ev["bytes"]).hex(), ev.get("text")])[0] += 1
             rep.mismatch(owner, v["cls"], field, {"kind": "render", "bytes": ev["bytes"], "hex": bytes(ev["bytes"]).hex(), "text": ev.get("text")})
     json.dump(summary, open(os.path.join(core.BUILD, f"last_{prop}_verdicts.json"), "w"), indent=1, sort_keys=True)
+    if tier == "thorough":
+        idx = next(i for i, e in enumerate(events) if e["outcome"] == "ok" and len(e.get("text", [])) >= 3)
+        core.anti_vacuity(rep, "Trace_Render", events[:idx + 20], [(idx, lambda e: (e["text"].__setitem__(1, e["text"][1] + "x"), e)[1], "C11")], name="C11-selftest")
     shapes = {}
     for e in events:
         if e["outcome"] == "ok" and e.get("text"):
